@@ -31,11 +31,25 @@ struct H {
     rw: u64,
 }
 
+thread_local! {
+    /// the instant that stands for context value 0 in the deadline (an hour ahead, so nothing is ever expired)
+    static BASE: std::time::Instant = std::time::Instant::now() + std::time::Duration::from_secs(3600);
+}
+/// The specification's context value is carried twice: as the trace id and as the deadline (BASE + v seconds), so that a
+/// change to either field that a later hook or the handler does not see shows up as a value the specification never predicts.
 fn ctx_val(ctx: &context::Context) -> u64 {
-    u128::from(ctx.trace_context.trace_id) as u64
+    let tv = u128::from(ctx.trace_context.trace_id) as u64;
+    let base = BASE.with(|b| *b);
+    let dv = if ctx.deadline >= base { (ctx.deadline - base).as_secs() } else { 999 };
+    if tv == dv {
+        tv
+    } else {
+        1_000_000 + dv * 1000 + tv
+    }
 }
 fn set_ctx(ctx: &mut context::Context, v: u64) {
     ctx.trace_context.trace_id = trace::TraceId::from(v as u128);
+    ctx.deadline = BASE.with(|b| *b) + std::time::Duration::from_secs(v);
 }
 fn res_fields(r: &Result<String, ServerError>) -> (bool, i64) {
     match r {
